@@ -81,7 +81,15 @@ def make_config(seed, tier="quick"):
             plan.append((round(t, 3), "app_send", None))
             t += per
     plan.sort()
+    prelude = r.random() < 0.25
     return dict(
+        # a first session that the peer drops; the judged session is the one after the reconnect (state left
+        # behind by the first connection must not disturb the watchdog of the second)
+        prelude_drop=prelude,
+        prelude_after=round(r.uniform(0.05, 1.2) * hb, 3),
+        prelude_reconnect=round(r.uniform(0.1, 3.0), 3),
+        p_slow_close=r.choice([0.0, 0.5, 1.0]) if prelude else 0.0,
+        slow_close_s=round(r.choice([0.3, 1.3, 2.6]), 3),
         early_app_testreq=r.random() < 0.15,
         seed=seed,
         eut_role=r.choice(["acceptor", "initiator"]),
@@ -111,7 +119,9 @@ class WatchdogSim(PeerSim):
 
     def setup_family(self):
         cfg = self.cfg
-        self.peer.auto.update(logon=True, testreq=False, resend=cfg["law"] == "answer_gap", logout=False)
+        # (a well-behaved peer honours ResendRequests: needed by the answer_gap law and by a prelude whose
+        # reconnect attempt was turned away, which costs the peer a Logon number)
+        self.peer.auto.update(logon=True, testreq=False, resend=True, logout=False)
         self.peer.next_out = cfg["eut_in"]
         self.peer.on_frame_cb = self.on_peer_frame
         self.t0 = None  # EUT became ACTIVE
@@ -123,10 +133,22 @@ class WatchdogSim(PeerSim):
         self.wrong_sent_at = []  # times at which a wrong-id heartbeat was sent
         self.app_id = 0
         self.n_eut_testreq = 0
+        self.prelude_state = "pending" if cfg.get("prelude_drop") else "none"
+        self.n_retries = 0
+        self._retry_pending = False
 
     def peer_event(self, kind):
-        if kind == "connected" and self.eut_role == "acceptor" and self.peer.n_connections == 1:
+        if kind == "connected" and self.eut_role == "acceptor":
             self.peer.send("A", [("98", "0"), ("108", self.cfg["hb"])], spec={"stim": "logon"})
+        if kind in ("eof", "lost") and self.prelude_state == "dropped" and self.eut_role == "acceptor":
+            self.prelude_state = "reconnecting"
+            self.loop.call_later(self.cfg["prelude_reconnect"], self.peer_connect)
+        elif kind in ("eof", "lost") and self.prelude_state == "reconnecting" and self.t0 is None \
+                and self.eut_role == "acceptor" and self.n_retries < 12 and not self._retry_pending:
+            # the acceptor was still closing the old connection and turned the new one away: try again
+            self.n_retries += 1
+            self._retry_pending = True
+            self.loop.call_later(1.0, self._retry_connect)
 
     # zero-latency network: everything in flight is delivered at the next iteration
     def on_boundary(self):
@@ -138,9 +160,17 @@ class WatchdogSim(PeerSim):
     def enabled_actions(self):
         return []
 
+    def _replay_boundary(self):
+        # the run is driven by virtual time and the plan in its config, not by chooser actions: a replay ends
+        # its fault phase where the search run did (inline decisions still come from the trace)
+        if self.fault_phase_over():
+            self.begin_settle()
+        else:
+            self._record_run()
+
     def fault_phase_over(self):
         if self.t0 is None:
-            return self.loop.time() - self.loop_start() > 30.0
+            return self.loop.time() - self.loop_start() > 30.0 + (4.0 * self.cfg["hb"] if self.cfg.get("prelude_drop") else 0.0)
         return self.loop.time() >= self.t0 + self.cfg["horizon"]
 
     def loop_start(self):
@@ -159,10 +189,31 @@ class WatchdogSim(PeerSim):
         if kind == "state":
             st = args[0]
             if st == ACTIVE and self.t0 is None:
-                self.t0 = now
-                self.schedule_plan()
+                if self.prelude_state == "pending":
+                    # first session: the peer hangs up shortly afterwards
+                    self.prelude_state = "active1"
+                    self.loop.call_later(self.cfg["prelude_after"], self.prelude_close)
+                elif self.prelude_state in ("none", "dropped", "reconnecting"):
+                    self.t0 = now
+                    self.schedule_plan()
             if st <= ConnectionState.DISCONNECTED_BROKEN_CONN and self.t0 is not None:
                 self.disconnects.append((now, st.name))
+
+    def _retry_connect(self):
+        self._retry_pending = False
+        if not self.peer.connected and self.t0 is None:
+            self.peer_connect()
+
+    def prelude_close(self):
+        if self.peer.connected:
+            self.prelude_state = "dropped"
+            self.fault("prelude_peer_drop")
+            self.peer.close()
+        else:
+            self.prelude_state = "dropped"
+            if self.eut_role == "acceptor":
+                self.prelude_state = "reconnecting"
+                self.loop.call_later(self.cfg["prelude_reconnect"], self.peer_connect)
 
     def schedule_plan(self):
         for (dt, kind, arg) in self.cfg["plan"]:
@@ -249,12 +300,15 @@ class WatchdogSim(PeerSim):
             raise Violation("no-logon", f"C12/session-never-active/role={self.eut_role}",
                             "clean Logon exchange did not make the endpoint ACTIVE")
         t0 = self.t0
+        # only the judged session (after an optional prelude session the peer dropped) is looked at
+        all_arrivals = [a for a in self.arrivals if a[0] >= t0 - 1e-9]
+        all_tx = [x for x in self.eut_tx if x[0] >= t0 - 1e-9]
         T = self.t_fault_end if self.t_fault_end is not None else self.loop.time()
         first_disc = self.disconnects[0][0] if self.disconnects else None
         obs_end = first_disc if first_disc is not None else T
-        arr = [a for a in self.arrivals if a[0] >= t0 - 1e-9 and a[0] <= obs_end + 1e-9]
+        arr = [a for a in all_arrivals if a[0] >= t0 - 1e-9 and a[0] <= obs_end + 1e-9]
         arr_t = sorted({t0} | {a[0] for a in arr})
-        treq = [(t, rid) for (t, typ, rid, seq) in self.eut_tx if typ == "1" and t <= obs_end + 1e-9]
+        treq = [(t, rid) for (t, typ, rid, seq) in all_tx if typ == "1" and t <= obs_end + 1e-9]
         ctx = f"law={law}/hb={'1' if I == 1 else ('small' if I <= 5 else 'large')}"
 
         def rel(t):
@@ -294,21 +348,24 @@ class WatchdogSim(PeerSim):
                 self.probe("silence_answered_by_testrequest")
         # O2: dead peer => disconnected within 3 intervals (+2 s)
         last = arr_t[-1]
-        if T - last >= 3 * I + 2 + 1e-9:
-            if first_disc is None or first_disc > last + 3 * I + 2 + 1e-9:
+        # (the disconnect is reported when the transport has closed; an injected slow close adds its delay)
+        slack = cfg.get("slow_close_s", 0.0) if cfg.get("p_slow_close") else 0.0
+        if T - last >= 3 * I + 2 + slack + 1e-9:
+            if first_disc is None or first_disc > last + 3 * I + 2 + slack + 1e-9:
                 when = "never" if first_disc is None else f"+{rel(first_disc)}s"
                 raise Violation("no-disconnect", f"C12/dead-peer-not-disconnected/{ctx}",
                                 f"nothing received after +{rel(last)}s (interval {I}s), observed until +{rel(T)}s; disconnected: {when}")
             self.probe("dead_peer_disconnected")
         # O6: wrong TestReqID while one is outstanding => Logout, then disconnect
-        wrong = [(ta, aid) for (ta, typ, aid) in self.arrivals if typ == "0" and aid is not None
+        wrong = [(ta, aid) for (ta, typ, aid) in all_arrivals if typ == "0" and aid is not None
                  and t0 <= ta and (first_disc is None or ta <= first_disc + 1e-9)]
         for (ta, aid) in wrong:
             out = [rid for (t, rid) in treq if t <= ta + 1e-9 and answered.get((t, rid), float("inf")) >= ta - 1e-9]
             if not out or aid in out:
                 continue
-            logout = [t for (t, typ, rid, seq) in self.eut_tx if typ == "5" and ta - 1e-9 <= t <= ta + 1.0]
-            if not logout or first_disc is None or first_disc > ta + 1.0:
+            logout = [t for (t, typ, rid, seq) in all_tx if typ == "5" and ta - 1e-9 <= t <= ta + 1.0]
+            slack6 = cfg.get("slow_close_s", 0.0) if cfg.get("p_slow_close") else 0.0
+            if not logout or first_disc is None or first_disc > ta + 1.0 + slack6:
                 raise Violation("wrong-id-tolerated", f"C12/wrong-testreqid-not-ending-session/{ctx}",
                                 f"Heartbeat with TestReqID {aid} at +{rel(ta)}s while {out} was outstanding: "
                                 f"logout={'yes' if logout else 'no'}, disconnected={'no' if first_disc is None else '+%ss' % rel(first_disc)}")
@@ -318,10 +375,10 @@ class WatchdogSim(PeerSim):
         wrong_any = any(aid is not None and not any(aid == rid for (_, rid) in treq) for (ta, typ, aid) in arr if typ == "0") \
             and bool(treq)
         if first_disc is not None and not wrong_any:
-            full = sorted({t0} | {a[0] for a in self.arrivals if t0 <= a[0] <= first_disc})
+            full = sorted({t0} | {a[0] for a in all_arrivals if t0 <= a[0] <= first_disc})
             gaps = [full[i + 1] - full[i] for i in range(len(full) - 1)] + [first_disc - full[-1]]
             gaps_ok = max(gaps) <= I - 2 + 1e-9
-            all_treq = [(t, rid) for (t, typ, rid, seq) in self.eut_tx if typ == "1" and t <= first_disc]
+            all_treq = [(t, rid) for (t, typ, rid, seq) in all_tx if typ == "1" and t <= first_disc]
             # a TestRequest still unanswered at the disconnect is not held against the peer when its (planned,
             # correct) answer was not due yet and was due inside the band: the endpoint hung up on a live peer
             ans = cfg["answer"]
@@ -349,7 +406,7 @@ class WatchdogSim(PeerSim):
         # O4: every inbound TestRequest answered with a Heartbeat carrying the same id
         for (ta, typ, aid) in arr:
             if typ == "1" and ta < obs_end - 1e-9:
-                if not any(t2 >= ta - 1e-9 and typ2 == "0" and rid2 == aid for (t2, typ2, rid2, _) in self.eut_tx):
+                if not any(t2 >= ta - 1e-9 and typ2 == "0" and rid2 == aid for (t2, typ2, rid2, _) in all_tx):
                     raise Violation("testrequest-unanswered", f"C12/inbound-testrequest-unanswered/{ctx}",
                                     f"TestRequest {aid} received at +{rel(ta)}s got no Heartbeat with that TestReqID")
                 self.probe("inbound_testrequest_answered")
